@@ -113,8 +113,7 @@ def run(ctx):
         groups += [[gen_c12(r, r.randrange(11, 16), deep=True)] for _ in range(nd)]     # pruning window
         # rollbacks in an unstructured stream (odd commit heights, missing journals, refusals)
         m = 45 if ctx.quick else 1500
-        groups += [[[o for o in lc.gen_soup(r, r.randrange(10, 60)) if o[0] != "getcommitted" and not (o[0] == "setcode" and o[2] is None)]]
-                   for _ in range(m)]
+        groups += [[lc.gen_soup(r, r.randrange(10, 60))] for _ in range(m)]
         groups += lc.scenario_groups(r, 3 if ctx.quick else 60)
         # non-UTF-8 storage keys (open finding): own key universe
         bad_keys = [b"\xff\x01", b"\xfe", b"a", b"\xc3\xa9", b"\xc3"]
